@@ -200,6 +200,7 @@ impl PipelineEngine {
             "C06" => cfg.heavy_demand = true,
             _ => {}
         }
+        cfg.giant = prop != "C16";
         PipelineEngine { prop: prop.to_string(), cfg, watchdog: Duration::from_secs(if tier == "thorough" { 60 } else { 20 }), profiles: vec!["checked", "release"], in_process: false }
     }
 
